@@ -142,6 +142,26 @@ def run_one(task):
                           for f in fails[:20]], nfail=len(fails))
 
 
+# configuration of the BrownianInterval that sdeint's check_contract builds by default (read back from the real call in run())
+SDEINT_DEFAULT = dict(levy='none', size=(1, 2), cache_size=45)
+
+
+def sdeint_default_config():
+    """what the real check_contract constructs for bm=None (concrete observation)"""
+    import torch
+    from torchsde._core import sdeint as sdeint_mod
+
+    class SDE(torch.nn.Module):
+        noise_type = 'general'; sde_type = 'ito'
+        def f(self, t, y): return -y
+        def g(self, t, y): return torch.ones(y.shape[0], y.shape[1], 2, dtype=y.dtype)
+    y0 = torch.zeros(1, 3, dtype=torch.float64)
+    ts = torch.tensor([0.0, 1.0], dtype=torch.float64)
+    out = sdeint_mod.check_contract(SDE(), y0, ts, None, 'euler', False, None, None, False)
+    bm = out[3]
+    return dict(levy=bm._levy_area_approximation, size=tuple(bm._size), cache_size=bm._cache_size, dt=bm._dt, tol=bm._tol, halfway=bm._halfway_tree)
+
+
 def tasks_for(tier):
     q = tier == 'quick'
     mp, to = (4000, 60000) if q else (60000, 300000)
@@ -161,6 +181,7 @@ def tasks_for(tier):
         ('chain', dict(levy='none', size=(1,), cache_size=1), 6, True, mp, to),
         ('chain', dict(levy='space-time', size=(1,), cache_size=2, warm=True), 6, False, mp, to),
         ('chain', dict(levy='none', size=(1,), cache_size=0, warm=True), 5, True, mp, to),
+        ('chain', dict(SDEINT_DEFAULT, warm=True), 5, True, mp, to),        # the Brownian motion sdeint builds when none is given
     ]
     if not q:
         T += [
@@ -240,7 +261,7 @@ def run(ctx):
     ctx.stubs += bshim.STUBS
     ctx.bounds = {'queries per history (crash exploration)': '<=2 arbitrary symbolic real times (off-grid, sub-tolerance, zero-length included)',
                   'chain lengths compared': 'K vs 2K, K = 5-6 (quick) / 10, symbolic step length in [span/(2K+2), span/2K]', 'stack head-room during crash exploration': f'{RECDEPTH} Python frames',
-                  'configs': 'cache_size 0/1/2/45/None, dt hint or not, tol 0/0.1/0.01, halfway_tree, all Levy modes'}
+                  'configs': 'the sdeint default (cache_size 45, no dt hint, tol 0) read back from the real check_contract; cache_size 0/1/2/45/None, dt hint or not, tol 0/0.1/0.01, halfway_tree, all Levy modes'}
     ctx.assumptions += ['documented validity predicate of the constructor only', 'a RecursionError within %d frames of head-room, or a path cut at the branch bound, is replayed on floats with the default recursion limit and a time limit before being reported' % RECDEPTH]
     ctx.outside += ['histories of tens of thousands of queries as such: decided through history-independence of the frame depth on small chains; long runs are replay material']
     tasks = tasks_for(ctx.tier)
@@ -271,6 +292,17 @@ def run(ctx):
         else:
             ctx.ok(f"_LRUDict one-step invariant from every valid state (max_size<=3, keys in 0..3): {res['stats']['paths']} states")
     crosshair_lru(ctx)
+    try:
+        got = sdeint_default_config()
+        want = dict(B.DEFAULT); want.update(SDEINT_DEFAULT)
+        same = (got['levy'] == want['levy'] and got['cache_size'] == want['cache_size'] and got['dt'] == want['dt'] and not got['tol'] and not want['tol']
+                and got['halfway'] == want['halfway'] and len(got['size']) == len(want['size']))
+        if same:
+            ctx.ok(f"sdeint's default Brownian motion {got} is the explored configuration labelled SDEINT_DEFAULT")
+        else:
+            ctx.inconc("sdeint's default Brownian motion", f"check_contract now builds {got}; the explored default is {SDEINT_DEFAULT}: update the configuration list")
+    except Exception as e:
+        ctx.inconc("sdeint's default Brownian motion", f"{type(e).__name__}: {e}")
     ctx.twin('twin: ta > tb must raise (the documented RuntimeError is reachable)', twin())
 
 
